@@ -76,11 +76,21 @@ void *mremap_wrapper(void *old_address __attribute__((__unused__)),
 /* Sleep delay in ms */
 #define RCU_SLEEP_DELAY_MS	10
 #define INIT_READER_COUNT	8
+#ifdef URCU_VERIF
+#undef INIT_READER_COUNT
+#define INIT_READER_COUNT	\
+	((size_t) urcu_verif_knob(URCU_VERIF_KNOB_BP_INIT_READER_COUNT, 8))
+#endif
 
 /*
  * Active attempts to check for reader Q.S. before calling sleep().
  */
 #define RCU_QS_ACTIVE_ATTEMPTS 100
+#ifdef URCU_VERIF
+#undef RCU_QS_ACTIVE_ATTEMPTS
+#define RCU_QS_ACTIVE_ATTEMPTS	\
+	((unsigned int) urcu_verif_knob(URCU_VERIF_KNOB_QS_ACTIVE_ATTEMPTS, 100))
+#endif
 
 static
 int urcu_bp_refcount;
